@@ -353,8 +353,36 @@ class TermExecutor(Executor):
                 return [(st, VInt(r))]
         return super().binop(st, op, a, b, node, inplace)
 
+    inline_helpers = False
+    owner_class = ""
+
+    def _helper_node(self, f):
+        """function node of `self.h(...)` / `cls.h(...)` / `Class.h(...)` (method of the class under analysis) or `h(...)` (module level)"""
+        if isinstance(f, ast.Attribute) and isinstance(f.value, ast.Name):
+            if f.value.id in ("self", "cls") or f.value.id == self.owner_class.split(".")[-1]:
+                q = f"{self.owner_class}.{f.attr}" if self.owner_class else f.attr
+                return self.module.functions.get(q), True
+            return None, False
+        if isinstance(f, ast.Name) and f.id in self.module.functions:
+            return self.module.functions[f.id], False
+        return None, False
+
     def e_Call(self, n, st):
         f = n.func
+        if self.inline_helpers and not n.keywords:
+            h, is_method = self._helper_node(f)
+            if h is not None and not any(h is x for x in self.cur_fn_stack) and self.inline_depth < 2 \
+                    and sum(1 for _ in ast.walk(h)) <= 400 and not any(isinstance(x, (ast.Yield, ast.YieldFrom)) for x in ast.walk(h)):
+                decos = [ast.unparse(d) for d in h.decorator_list]
+                # names the helper stores to must not collide with the caller's loop-stable names: `len(<unknown named k>)` is one
+                # constant per stable name, and an unknown local of the helper called the same would share it
+                if all(d in ("staticmethod", "classmethod") for d in decos) and not (assigned(h.body) & set(self.stable_names)):
+                    outs = []
+                    for (s2, args) in self.ev_list(n.args, st):
+                        self_val = VUnk("self") if (is_method and "staticmethod" not in decos) else None
+                        env = self.bind_params(h, args, {}, n, self_val=self_val)
+                        outs.extend(self.run_body(s2, h, env, None))
+                    return outs
         # P.match/search(...) for a module-level compiled literal pattern
         if isinstance(f, ast.Attribute) and f.attr in ("match", "search", "fullmatch") and isinstance(f.value, ast.Name):
             w = self.pattern_width(f.value.id)
@@ -377,12 +405,24 @@ class TermExecutor(Executor):
             fmt = fmt_src.lstrip("<>=!@")
             rng = {"B": (0, 255), "H": (0, 65535), "I": (0, 2**32 - 1), "L": (0, 2**32 - 1), "Q": (0, 2**64 - 1),
                    "b": (-128, 127), "h": (-2**15, 2**15 - 1), "i": (-2**31, 2**31 - 1), "l": (-2**31, 2**31 - 1), "q": (-2**63, 2**63 - 1)}
-            if fmt and all(ch in rng for ch in fmt):
+            # counted items (`2H` = two integers, `4s` / `4p` = ONE bytes object, `x` = pad byte, no item), whitespace ignored
+            codes = []
+            for cnt, ch in re.findall(r"(\d*)([A-Za-z?])", fmt) if re.fullmatch(r"(?:\s*\d*[A-Za-z?])*\s*", fmt) else [("", "\0")]:
+                if ch in ("s", "p"):
+                    codes.append(ch)
+                elif ch == "x":
+                    continue
+                else:
+                    codes.extend([ch] * (int(cnt) if cnt else 1))
+            if codes and len(codes) <= 64 and all(ch in rng or ch in ("s", "p") for ch in codes):
                 outs = []
                 for (s2, _a) in self.ev_list(rest_args, st):
                     self.exc_any(s2.fork(), f"{self.loc(n)} struct.unpack")
                     items = []
-                    for ch in fmt:
+                    for ch in codes:
+                        if ch in ("s", "p"):
+                            items.append(VUnk(fresh_name("unpacked_bytes")))
+                            continue
                         t = z3.Int(fresh_name("unpacked"))
                         s2.assume(z3.And(t >= rng[ch][0], t <= rng[ch][1]))
                         items.append(VInt(t))
@@ -507,6 +547,15 @@ def index_rule(mod, reg, uni, q, fnode, loop, extra_assume=None, timeout_ms=1000
                 continue
         try:
             res = _run_index(mod, reg, uni, fnode, loop, var, direction, ints, extra_assume, timeout_ms)
+            if res[0] == "unknown" and "does not follow" in (res[1] or ""):
+                # the index is the result of a helper of the same module / class (`i = self._end_of_group(text, i)`): second attempt
+                # with such helpers executed in place (their own loops are cut with the proved-monotone invariant as usual)
+                try:
+                    res2 = _run_index(mod, reg, uni, fnode, loop, var, direction, ints, extra_assume, timeout_ms, inline_helpers=True)
+                    if res2[0] == "proved":
+                        res = (res2[0], (res2[1] + " [module helpers executed in place]").strip(), res2[2], res2[3])
+                except (Unsupported, PathLimit):
+                    pass
         except (Unsupported, PathLimit) as e:
             last = ("unknown", f"OUT-OF-SUBSET {e}", 0.0, 0)
             continue
@@ -516,8 +565,10 @@ def index_rule(mod, reg, uni, q, fnode, loop, extra_assume=None, timeout_ms=1000
     return last
 
 
-def _run_index(mod, reg, uni, fnode, loop, var, direction, ints, extra_assume, timeout_ms):
+def _run_index(mod, reg, uni, fnode, loop, var, direction, ints, extra_assume, timeout_ms, inline_helpers=False):
     ex = TermExecutor(mod, reg, uni)
+    ex.inline_helpers = inline_helpers
+    ex.owner_class = next((".".join(q_.split(".")[:-1]) for q_, f_ in mod.functions.items() if f_ is fnode), "")
     st = State()
     env = {}
     names = {n.id for n in ast.walk(loop) if isinstance(n, ast.Name)}
@@ -555,6 +606,18 @@ def _run_index(mod, reg, uni, fnode, loop, var, direction, ints, extra_assume, t
                 env[n_.targets[0].id] = VInt(mod.assigns[v_.id].value)
             elif isinstance(v_, ast.Constant) and isinstance(v_.value, int) and not isinstance(v_.value, bool):
                 env[n_.targets[0].id] = VInt(v_.value)
+    # `n = len(x)` assigned exactly once outside the loop, x a str / bytes parameter the function never rebinds (immutable, so its
+    # length is one fixed number): n IS len(x) -- the same constant b_len gives for `len(x)` written out in the loop or in a helper
+    imm_params = {a.arg for a in fnode.args.args + fnode.args.kwonlyargs if a.annotation is not None and ast.unparse(a.annotation) in ("str", "bytes")
+                  and not counts.get(a.arg)}
+    for n_ in _own(fnode):
+        if isinstance(n_, ast.Assign) and len(n_.targets) == 1 and isinstance(n_.targets[0], ast.Name) and counts.get(n_.targets[0].id) == 1 \
+                and n_.targets[0].id in env and not any(x is n_ for x in ast.walk(loop)) and isinstance(n_.value, ast.Call) \
+                and isinstance(n_.value.func, ast.Name) and n_.value.func.id == "len" and len(n_.value.args) == 1 \
+                and isinstance(n_.value.args[0], ast.Name) and n_.value.args[0].id in imm_params and n_.value.args[0].id in env:
+            L = ex.len_consts.setdefault(n_.value.args[0].id, z3.Int(f"len({n_.value.args[0].id})"))
+            st.assume(L >= 0)
+            env[n_.targets[0].id] = VInt(L)
     st.frames = [Frame(env, None, fnode)]
     body_assigned = assigned(loop.body)
     ex.stable_names = {nm for nm in env if nm not in body_assigned}
